@@ -34,6 +34,16 @@ CHECKS = {
         technique="exhaustive single-point fault enumeration over enumerated conformant responses against the real generated models",
         design="§3 C05",
     ),
+    "C11": dict(
+        category="model_checking",
+        text="Inputs: every variables tree up to 4/5 nodes (leaves int/str/None/enum/datetime/Upload1/Upload2/UNSET, containers list/dict/generated-style model, one Upload referenced twice) "
+             "x kwargs x 6 client/tracer variants, captured httpx.Request compared with a reference wire-format model and across clients. Schedules: every interleaving of 2 concurrent "
+             "execute() calls on one async client under a virtual event loop (3 calls: deviation bound 2), and every 2-thread schedule with <=2 (quick) / <=3 (thorough) preemptions of the sync clients "
+             "under a sys.settrace baton scheduler whose scheduling points are the lines touching shared state; each call's request and result must equal its solo execution.",
+        note="Trusted: httpx MockTransport, email multipart parser. Scheduling points: lines of the bundled sync clients that access self attributes or mutable module globals (local-only lines commute); httpx internals atomic. A free-running threaded pass of the same bodies is also executed.",
+        technique="bounded-exhaustive input enumeration + stateless exploration of all task interleavings (virtual asyncio loop) and preemption-bounded thread schedules (baton scheduler) on the real clients",
+        design="§3 C11",
+    ),
     "C12": dict(
         category="exploration",
         text="Complete enumeration of the finite decision table: every status 100..599 x 24 body classes x the four bundled clients "
@@ -44,6 +54,17 @@ CHECKS = {
         design="§3 C12",
     ),
 }
+
+CHECKS["C13"] = dict(
+    category="model_checking",
+    text="TLA+ model of the client side of graphql-transport-ws (written from the statement) checked by TLC for all server frame sequences up to N=4 (quick) / 6 (thorough) over an 11-frame alphabet plus socket close, "
+         "7 invariants; the complete reachable state set (one state per frame sequence, via a history variable) is dumped and EVERY state is replayed against 6 implementation variants "
+         "(bundled async client, OpenTelemetry without/with stub/no-op tracer, generated subscription method plain and OpenTelemetry) through a scripted fake connection; configuration product "
+         "(init payload, headers, origin, variables with UNSET/models) on short sequences; the fake is bound to the real websockets library by loopback scripts.",
+    note="Trusted: TLC, the scripted fake connection (bound to websockets 17.1 by 4 loopback scripts with the connect keyword translated). Only the installed websockets version can be tried.",
+    technique="explicit-state model checking (TLC) of a protocol model + replay of every model state/trace against the implementation",
+    design="§3 C13",
+)
 
 PENDING_REASON = "check not built yet in this round (work in progress, see DESIGN.md §6)"
 NOT_APPLICABLE = {}
